@@ -49,6 +49,14 @@ CHECKS = {
                      "DEHB, PBT, speculative early removal); oracle on every delete_checkpoint / resume_trial / copy_checkpoint.",
                 note="Bounded: k<=1 (quick) / k<=2 (thorough), W in {2,3}, 5-6 trials, 4 levels; shutil-level behaviour of LocalBackend not exercised.",
                 technique="stateless model checking of the implementation (deviation-bounded enumeration of poll batchings and merge orders)"),
+    "C12": dict(engine="tunerx", category="model_checking", design_ref="§2 C12",
+                text="Stateless deviation-bounded exploration of the real Tuner.run for every StoppingCriterion field and pairs, "
+                     "schedulers, n_workers, wait_trial_completion, (a)synchronous scheduling, failures vs max_failures and scheduler "
+                     "exceptions injected at every call index; oracle: independent reading of the criterion at every loop end, no "
+                     "start afterwards, exit/drain right then, nothing alive after run(), cleanup calls, counters = ground truth.",
+                note="Bounded: k<=1 (quick) / k<=2 (thorough), W<=3, 3 levels; wall-clock is a logical clock ticking per iteration; "
+                     "scripted workers (the property excludes the simulator for 'left running').",
+                technique="stateless model checking of the implementation (deviation-bounded enumeration of environment answers and fault-injection points)"),
 }
 
 NOT_YET = {}
